@@ -7,7 +7,8 @@ compound key bytes); every token of the spec line (what the property demands to 
 occur among the implementation's tokens.
 
 Case kinds: k / d / j compound keys, e entity scripts on one TypedBucket, h entity writes through derived
-contexts (GetParentContext / WithFieldOverrides / GetOrCreatePath) on a real parent / child store pair.
+contexts (GetParentContext / WithFieldOverrides / GetOrCreatePath) on a real parent / child store pair,
+tm / tu time.Time.MarshalBinary / UnmarshalBinary against their transcription in the model.
 """
 import hashlib
 import re
@@ -31,6 +32,15 @@ THEOREMS = [
     "float64_roundtrip",
     "bool_roundtrip",
     "time_roundtrip",
+    "timeP_roundtrip",
+    "time_roundtrip_representation_irrelevant",
+    "time_write_never_fails_on_zone",
+    "marshal_refuses_minute_west",
+    "marshal_refuses_exactly",
+    "marshal_unmarshal_same_instant",
+    "value_time_representation_irrelevant",
+    "container_time_representation_irrelevant",
+    "time_in_containers_roundtrip",
     "scalar_write_succeeds",
     "strlist_write_succeeds",
     "strlist_roundtrip",
@@ -79,6 +89,15 @@ RULE = ("compound keys: every list of <=3 elements over a 7-string pool, every p
         "random lists of 0-6 byte strings, re-splittings of the same concatenation, damaged / non-canonical "
         "encodings for the decoder; values: every boundary integer / float bit pattern (+-0, +-Inf, NaNs, "
         "denormals) / byte string / time (6 zones, sub-second, years 1, 9999, 10000, negative) alone, inside a map "
+        "[times also with an explicit representation: 13 instants (zero Time, epoch, sub-second, years 1 / 9999 / 10000 / -5, "
+        "1885, 2157) x 38 zone offsets (+-1 s, +-59 / 60 / 61 / 89 / 90 / 119 / 120 / 121 s, +5:30, +5:45, +12:45, +14 h, -12 h, "
+        "+-18 h, +-18 h 1 m, +-23:59:59, 32767 / 32768 and -32768 / -32769 minutes, +-2^31 s) as FixedZone, as time.Local set to "
+        "the zone, the process's own Local, UTC, and derived from time.Now() (monotonic reading), through SetTime, SetTimeP, a "
+        "map holding the time and a list with it, a list holding it and a map with it; one instant in two representations "
+        "written one over the other / side by side in a map and a list / under a checker; another instant with the same wall "
+        "clock reading; time fields of a child and a parent store written through derived contexts; tm / tu: "
+        "time.Time.MarshalBinary / UnmarshalBinary themselves on every instant x offset x representation, random int64 seconds "
+        "x random offsets, arbitrary and damaged byte strings] "
         "and inside a list, random multi-field entities, maps and lists nested to depth 4 (5 now and then in the "
         "thorough tier) with nulls and empty containers, one injected refusal per case (empty key, unsupported "
         "type, reserved list-size key, 32768/32769-byte keys, nested value under allowNested=false), a field "
@@ -144,7 +163,8 @@ def describe(case, impl, model, spec):
     k = kind_of(case)
     d = {"kind": {"k": "EncodeStringSlice+DecodeStringSlice", "d": "DecodeStringSlice", "j": "encoding equality",
                   "e": "TypedBucket entity script",
-                  "h": "entity write through derived contexts (parent/child stores)"}.get(k, k),
+                  "h": "entity write through derived contexts (parent/child stores)",
+                  "tm": "time.Time.MarshalBinary + UnmarshalBinary", "tu": "time.Time.UnmarshalBinary"}.get(k, k),
          "case": _clip(case, 1500), "impl": _clip(impl, 1500), "model": _clip(model, 1500), "spec": _clip(spec or "", 800)}
     if spec and not spec_ok(impl, spec):
         d["demanded_but_not_read_back"] = [_clip(t, 300) for t in missing(impl, spec)[:6]]
@@ -279,7 +299,8 @@ def shrink(ctx, case, failing):
 def run(ctx, replay_cases=None):
     ctx.assumptions += [
         "encoding/binary PutUvarint / Uvarint behave as transcribed in Codec/Varint.lean (compared on every compound key case, including damaged encodings)",
-        "math.Float64bits / Float64frombits and time.MarshalBinary / UnmarshalBinary are mutually inverse; the model carries the bit pattern / the marshalled UTC bytes as opaque payloads (the harness writes real float64 / time.Time values in six zones and compares what comes back by bits / by re-marshalled UTC instant)",
+        "math.Float64bits / Float64frombits are mutually inverse; the model carries the bit pattern as an opaque payload (the harness writes real float64 values and compares what comes back by bits)",
+        "time.Time.UTC / MarshalBinary / UnmarshalBinary of the Go toolchain in use behave as transcribed from Go 1.23 src/time/time.go in Codec/TypedValue.lean (compared directly by the tm / tu cases on every run: every generated instant x zone offset x representation, random seconds and offsets, damaged byte strings); a location enters only through the offset t.Zone() reports for the instant",
         "bbolt buckets behave as ordered finite maps with the Put / CreateBucketIfNotExists refusals of Codec/Bucket.lean (a raw dump of the real bucket tree is compared with the model after every entity script)",
         "strconv / MarshalText formatting behind GetString on float and time fields and float64(int64) behind GetFloat64 on integer fields are outside the model's proofs (GetString prints '*' there; the conversion is compared using Lean's Float.ofInt)",
         "Go map iteration order does not matter: at most one refusal is injected per case, the state after a refused write is not compared",
@@ -289,7 +310,7 @@ def run(ctx, replay_cases=None):
         built = common.prove(ctx, MODULE, THEOREMS)
     trusted = common.BASE_TRUST + [
         "bbolt (ordered buckets, Put/CreateBucket refusals, transactions) — modelled, exercised by the dump comparison",
-        "Go stdlib: encoding/binary varints and LittleEndian, math.Float64bits, time.Time binary marshalling",
+        "Go stdlib: encoding/binary varints and LittleEndian, math.Float64bits, time.Time (UTC, MarshalBinary, UnmarshalBinary: transcribed and compared, not verified)",
     ]
     if not (ctx.harness_ok and ctx.driver_ok):
         ctx.obligation("harness and model driver build against /repo", False,
